@@ -918,3 +918,91 @@ func (pc *pCtx) p2BareReceive(only string) {
 		}
 	}
 }
+
+// d2ContextlessMethods: the context-less method M of a type that also has MWithContext (Subscribe, Connect, Next, Error,
+// Complete of observables, observers, subscribers and subjects) is that method called once, on the same receiver, with
+// context.Background() and the same arguments in order - and nothing else.
+func (pc *pCtx) d2ContextlessMethods(only string) {
+	var paths []string
+	for p := range pc.kc.w.ByPath {
+		if isRoPkg(p) && !strings.Contains(p, "/examples/") && !strings.HasSuffix(p, "/testing") {
+			paths = append(paths, p)
+		}
+	}
+	sort.Strings(paths)
+	for _, p := range paths {
+		fns := pc.kc.w.allFuncs(p)
+		for _, k := range sortedKeys(fns) {
+			fn := fns[k]
+			if fn.Blocks == nil || fn.Parent() != nil || fn.Signature.Recv() == nil || strings.HasSuffix(pc.kc.w.Prog.Fset.Position(fn.Pos()).Filename, "_test.go") {
+				continue
+			}
+			m := fn.Name()
+			switch m {
+			case "Subscribe", "Connect", "Next", "Error", "Complete":
+			default:
+				continue
+			}
+			if !hasMethod(fn.Signature.Recv().Type(), m+"WithContext") {
+				continue
+			}
+			name := k
+			if p != roPath {
+				name = strings.TrimPrefix(p, roPath+"/") + "." + k
+			}
+			if only != "" && !strings.Contains(name, only) {
+				continue
+			}
+			why := ""
+			calls := 0
+			for _, b := range fn.Blocks {
+				for _, ins := range b.Instrs {
+					call, ok := ins.(ssa.CallInstruction)
+					if !ok {
+						continue
+					}
+					c := call.Common()
+					cf := c.StaticCallee()
+					if cf != nil && cf.Pkg != nil && cf.Pkg.Pkg.Path() == "context" && cf.Name() == "Background" {
+						continue
+					}
+					calls++
+					callee := ""
+					var args []ssa.Value
+					if c.IsInvoke() {
+						callee = c.Method.Name()
+						args = append([]ssa.Value{c.Value}, c.Args...)
+					} else if cf != nil {
+						callee = cf.Name()
+						args = c.Args
+					}
+					if i := strings.Index(callee, "["); i > 0 {
+						callee = callee[:i] // an instantiation of a generic method
+					}
+					if callee != m+"WithContext" {
+						why = fmt.Sprintf("calls %s", callee)
+						continue
+					}
+					// receiver, context.Background(), then the parameters in order
+					if len(args) != len(fn.Params)+1 || args[0] != ssa.Value(fn.Params[0]) {
+						why = "the WithContext form is called on another receiver or with other arguments"
+						continue
+					}
+					if bc, ok := args[1].(*ssa.Call); !ok || bc.Common().StaticCallee() == nil || bc.Common().StaticCallee().Name() != "Background" {
+						why = "the context handed over is not context.Background()"
+					}
+					for i := 1; i < len(fn.Params); i++ {
+						if args[i+1] != ssa.Value(fn.Params[i]) {
+							why = fmt.Sprintf("argument %d is not parameter %s", i, fn.Params[i].Name())
+						}
+					}
+				}
+			}
+			if calls != 1 && why == "" {
+				why = fmt.Sprintf("%d calls instead of one", calls)
+			}
+			pc.add([]string{"C09", "C01", "C06", "C10", "C11"}, fmt.Sprintf("D2/%s/is-its-WithContext-form-with-a-background-context", name),
+				"the context-less method is its WithContext form called once, on the same receiver, with context.Background() and the same arguments", why == "", why, pc.pos(fn.Pos()))
+		}
+	}
+}
